@@ -181,14 +181,19 @@ def check_kernels(repo, chk, tier):
         want = set(mapping.values())
         kernels = {k for k in mapping if k is not None}
         ok = doms == want and kernels <= called
-        chk.oblige("E6-dom", "%s: get_amp uses %s, get_sympy_dom uses %s" % (ckey, sorted(kernels) or "inline formula", sorted(doms)), ok)
-        if not ok:
-            chk.violation("E6-dom", gd.key, "wiring", "get_sympy_dom is wired to %s but the numeric kernel(s) %s require %s" % (sorted(doms), sorted(kernels), sorted(want)), file=cls.mod.rel, line=gd.lineno)
+        if kernels == {"BW", "BWR"}:
+            # decided by interpretation below (branch agreement: get_sympy_dom * get_amp == 1 for either branch): the
+            # names called in the two bodies are reported only - a helper method may carry the calls
+            chk.info("E6-dom wiring (informative): %s: get_amp calls %s, get_sympy_dom calls %s" % (ckey, sorted(called & kernels) or "helpers", sorted(doms) or "helpers"))
+        else:
+            chk.oblige("E6-dom", "%s: get_amp uses %s, get_sympy_dom uses %s" % (ckey, sorted(kernels) or "inline formula", sorted(doms)), ok)
+            if not ok:
+                chk.violation("E6-dom", gd.key, "wiring", "get_sympy_dom is wired to %s but the numeric kernel(s) %s require %s" % (sorted(doms), sorted(kernels), sorted(want)), file=cls.mod.rel, line=gd.lineno)
         # branch agreement: for either value of running_width the class's own get_amp and get_sympy_dom are reciprocal
         if kernels == {"BW", "BWR"}:
             # the barrier radius the class itself sets (init_params); get_sympy_dom relies on BWR_dom's default
             ip = cls.lookup("init_params")
-            dvals = [n.value for n in walk_local(ip.node) if isinstance(n, ast.Assign) and len(n.targets) == 1 and norm_text(n.targets[0]) == "self.d"] if ip else []
+            dvals = [n.value for n in walk_local(ip.node) if (isinstance(n, ast.Assign) and len(n.targets) == 1 and norm_text(n.targets[0]) == "self.d") or (isinstance(n, ast.AnnAssign) and n.value is not None and norm_text(n.target) == "self.d")] if ip else []
             if len(dvals) == 1 and isinstance(dvals[0], ast.Name) and dvals[0].id in cls.mod.toplevel_assign:
                 dvals = [cls.mod.toplevel_assign[dvals[0].id]]  # a module-level constant
             if len(dvals) != 1 or not isinstance(dvals[0], ast.Constant) or not isinstance(dvals[0].value, (int, float)):
